@@ -1,1 +1,262 @@
-//! ref_pack (to be filled)
+//! Reference builders / readers for the two container formats layered on plain bytes and
+//! on bin archives: the GameCube/Wii "pack" archive (C15) and the 3DS "arc" (C16).
+//! Written from DESIGN Appendix A.
+
+use crate::ref_bin::{self, Content, End};
+use crate::sjis;
+
+// ------------------------------------------------------------------------------------
+// pack (big-endian): "pack" · count u16 · 0 u16 · count × {0, name ptr, body ptr, size} ·
+// names · bodies; all pointers absolute.
+
+#[derive(Clone, Debug)]
+pub struct PackLayout {
+    /// names stored after the bodies instead of before
+    pub names_after: bool,
+    /// bodies stored in reverse order
+    pub reverse_bodies: bool,
+    /// extra 32-byte gap before every body
+    pub gaps: bool,
+    /// names stored in reverse order
+    pub reverse_names: bool,
+}
+
+pub fn pack_layouts() -> Vec<PackLayout> {
+    let mut v = Vec::new();
+    for names_after in [false, true] {
+        for reverse_bodies in [false, true] {
+            for gaps in [false, true] {
+                for reverse_names in [false, true] {
+                    v.push(PackLayout { names_after, reverse_bodies, gaps, reverse_names });
+                }
+            }
+        }
+    }
+    v
+}
+
+fn align_to(v: &mut Vec<u8>, n: usize) {
+    while v.len() % n != 0 {
+        v.push(0);
+    }
+}
+
+pub fn build_pack(files: &[(String, Vec<u8>)], l: &PackLayout) -> Vec<u8> {
+    let n = files.len();
+    let header_len = 8 + 16 * n;
+    let mut tail: Vec<u8> = Vec::new(); // everything after the entry table
+    let mut name_ptr = vec![0usize; n];
+    let mut body_ptr = vec![0usize; n];
+    let place_names = |tail: &mut Vec<u8>, name_ptr: &mut Vec<usize>| {
+        let order: Vec<usize> = if l.reverse_names { (0..n).rev().collect() } else { (0..n).collect() };
+        for i in order {
+            name_ptr[i] = header_len + tail.len();
+            tail.extend(sjis::encode(&files[i].0).expect("name outside Shift-JIS"));
+            tail.push(0);
+        }
+    };
+    let place_bodies = |tail: &mut Vec<u8>, body_ptr: &mut Vec<usize>| {
+        let order: Vec<usize> = if l.reverse_bodies { (0..n).rev().collect() } else { (0..n).collect() };
+        for i in order {
+            while (header_len + tail.len()) % 32 != 0 {
+                tail.push(0);
+            }
+            if l.gaps {
+                tail.extend([0xEEu8; 32]);
+            }
+            body_ptr[i] = header_len + tail.len();
+            tail.extend(&files[i].1);
+        }
+        while (header_len + tail.len()) % 32 != 0 {
+            tail.push(0);
+        }
+    };
+    if l.names_after {
+        place_bodies(&mut tail, &mut body_ptr);
+        place_names(&mut tail, &mut name_ptr);
+    } else {
+        place_names(&mut tail, &mut name_ptr);
+        place_bodies(&mut tail, &mut body_ptr);
+    }
+    let mut out = Vec::new();
+    out.extend(b"pack");
+    out.extend((n as u16).to_be_bytes());
+    out.extend([0, 0]);
+    for i in 0..n {
+        out.extend(0u32.to_be_bytes());
+        out.extend((name_ptr[i] as u32).to_be_bytes());
+        out.extend((body_ptr[i] as u32).to_be_bytes());
+        out.extend((files[i].1.len() as u32).to_be_bytes());
+    }
+    out.extend(tail);
+    out
+}
+
+#[derive(Debug, Clone)]
+pub struct PackEntry {
+    pub name: String,
+    pub name_ptr: usize,
+    pub body_ptr: usize,
+    pub size: usize,
+    pub body: Vec<u8>,
+}
+
+/// Strict reader of a pack image.
+pub fn read_pack(b: &[u8]) -> Result<Vec<PackEntry>, String> {
+    if b.len() < 8 || &b[0..4] != b"pack" {
+        return Err("no pack magic".into());
+    }
+    let n = u16::from_be_bytes([b[4], b[5]]) as usize;
+    if 8 + 16 * n > b.len() {
+        return Err("entry table runs past the file".into());
+    }
+    let mut v = Vec::new();
+    for i in 0..n {
+        let at = 8 + 16 * i;
+        let rd = |o: usize| u32::from_be_bytes([b[at + o], b[at + o + 1], b[at + o + 2], b[at + o + 3]]) as usize;
+        let (name_ptr, body_ptr, size) = (rd(4), rd(8), rd(12));
+        if name_ptr >= b.len() {
+            return Err(format!("entry {}: name pointer outside the file", i));
+        }
+        let end = b[name_ptr..].iter().position(|x| *x == 0).ok_or(format!("entry {}: name not terminated", i))?;
+        let name = sjis::decode(&b[name_ptr..name_ptr + end]);
+        if body_ptr + size > b.len() {
+            return Err(format!("entry {}: body [{}, +{}) outside the file of {} bytes", i, body_ptr, size, b.len()));
+        }
+        v.push(PackEntry { name, name_ptr, body_ptr, size, body: b[body_ptr..body_ptr + size].to_vec() });
+    }
+    Ok(v)
+}
+
+// ------------------------------------------------------------------------------------
+// 3DS arc = little-endian bin archive; data: [0x60 zero header] · bodies · "Count" → u32 n ·
+// "Info" → n × {name string cell, u32 index, u32 size, u32 offset}
+
+#[derive(Clone, Debug)]
+pub struct ArcLayout {
+    pub padded: bool,
+    /// Count/Info tables before the bodies
+    pub tables_first: bool,
+    /// permutation of the records in the Info table
+    pub record_order: Vec<usize>,
+    /// permutation of the bodies in the data region
+    pub body_order: Vec<usize>,
+    /// Info table before the Count cell
+    pub info_before_count: bool,
+}
+
+#[derive(Clone, Debug, Default)]
+pub struct ArcTweak {
+    pub omit_count_label: bool,
+    pub omit_info_label: bool,
+    /// record index whose name cell holds no string
+    pub nameless_record: Option<usize>,
+    /// (record index, new size field)
+    pub size_override: Option<(usize, u32)>,
+    /// (record index, new offset field)
+    pub offset_override: Option<(usize, u32)>,
+}
+
+pub struct ArcImage {
+    pub bytes: Vec<u8>,
+    /// data-region size (for planting out-of-range fields)
+    pub data_size: usize,
+    /// absolute data address of each file body, by file index
+    pub body_addr: Vec<usize>,
+    pub padded: bool,
+}
+
+pub fn build_arc(files: &[(String, Vec<u8>)], l: &ArcLayout, tw: &ArcTweak) -> ArcImage {
+    let n = files.len();
+    let mut c = Content::new(End::Little);
+    let mut data: Vec<u8> = Vec::new();
+    if l.padded {
+        data.extend([0u8; 0x60]);
+    } else {
+        // a leading non-zero word tells the reader there is no padded header
+        data.extend(0xC0DE_F11Eu32.to_le_bytes());
+    }
+    let mut body_addr = vec![0usize; n];
+    let mut count_addr = 0usize;
+    let mut info_addr = 0usize;
+    let place_bodies = |data: &mut Vec<u8>, body_addr: &mut Vec<usize>| {
+        for &i in &l.body_order {
+            body_addr[i] = data.len();
+            data.extend(&files[i].1);
+            align_to(data, 4);
+        }
+    };
+    let place_tables = |data: &mut Vec<u8>, count_addr: &mut usize, info_addr: &mut usize| {
+        let put_count = |data: &mut Vec<u8>, count_addr: &mut usize| {
+            *count_addr = data.len();
+            data.extend((n as u32).to_le_bytes());
+        };
+        let put_info = |data: &mut Vec<u8>, info_addr: &mut usize| {
+            *info_addr = data.len();
+            data.extend(std::iter::repeat(0u8).take(16 * n));
+        };
+        if l.info_before_count {
+            put_info(data, info_addr);
+            put_count(data, count_addr);
+        } else {
+            put_count(data, count_addr);
+            put_info(data, info_addr);
+        }
+    };
+    if l.tables_first {
+        place_tables(&mut data, &mut count_addr, &mut info_addr);
+        place_bodies(&mut data, &mut body_addr);
+    } else {
+        place_bodies(&mut data, &mut body_addr);
+        place_tables(&mut data, &mut count_addr, &mut info_addr);
+    }
+    // fill the Info records
+    let base = if l.padded { 0x60 } else { 0 };
+    for (slot, &fi) in l.record_order.iter().enumerate() {
+        let at = info_addr + 16 * slot;
+        if tw.nameless_record != Some(slot) {
+            c.strings.insert(at, files[fi].0.clone());
+        }
+        let mut size = files[fi].1.len() as u32;
+        let mut off = (body_addr[fi] - base) as u32;
+        if let Some((r, s)) = tw.size_override {
+            if r == slot {
+                size = s;
+            }
+        }
+        if let Some((r, o)) = tw.offset_override {
+            if r == slot {
+                off = o;
+            }
+        }
+        data[at + 4..at + 8].copy_from_slice(&(fi as u32).to_le_bytes());
+        data[at + 8..at + 12].copy_from_slice(&size.to_le_bytes());
+        data[at + 12..at + 16].copy_from_slice(&off.to_le_bytes());
+    }
+    c.data = data;
+    if !tw.omit_count_label {
+        c.labels.entry(count_addr).or_default().push("Count".into());
+    }
+    if !tw.omit_info_label {
+        c.labels.entry(info_addr).or_default().push("Info".into());
+    }
+    let data_size = c.data.len();
+    ArcImage { bytes: ref_bin::write_canonical(&c), data_size, body_addr, padded: l.padded }
+}
+
+pub fn arc_layouts(n: usize) -> Vec<ArcLayout> {
+    let perms = crate::util::permutations(n);
+    let mut v = Vec::new();
+    for padded in [true, false] {
+        for tables_first in [false, true] {
+            for info_before_count in [false, true] {
+                for ro in &perms {
+                    for bo in &perms {
+                        v.push(ArcLayout { padded, tables_first, record_order: ro.clone(), body_order: bo.clone(), info_before_count });
+                    }
+                }
+            }
+        }
+    }
+    v
+}
